@@ -21,7 +21,15 @@ for l in $(seq 0 $((lanes-1))); do
   ) &
 done
 wait
-cat "$tmp"/r* | sort > "$tmp/all"
-{ echo "# $(date -u +%F) simulator at $(git -C /verif rev-parse --short HEAD) (+ working copy), /repo at $(git -C /repo rev-parse --short HEAD)"; cat "$tmp/all"; } > /verif/sensitivity/RESULTS.txt
+cat "$tmp"/r* | sort > "$tmp/new"
+# merge: lines of patches that were not re-run (and still exist) are kept
+if [ -f /verif/sensitivity/RESULTS.txt ]; then
+  grep -v '^#' /verif/sensitivity/RESULTS.txt | while IFS= read -r line; do
+    pid="${line%%:*}"
+    [ -f "/verif/sensitivity/$pid.diff" ] && ! grep -q "^$pid:" "$tmp/new" && echo "$line"
+  done > "$tmp/old"
+fi
+cat "$tmp/new" "$tmp/old" 2>/dev/null | sort > "$tmp/all"
+{ echo "# merged over runs; last run $(date -u +%F) with the simulator at $(git -C /verif rev-parse --short HEAD) (+ working copy), /repo at $(git -C /repo rev-parse --short HEAD)"; cat "$tmp/all"; } > /verif/sensitivity/RESULTS.txt
 cat /verif/sensitivity/RESULTS.txt | cut -c1-200
 rm -rf "$tmp"
